@@ -133,6 +133,11 @@ func (s *NotifyFollowReader) startWatcher() (*fsnotify.Watcher, error) {
 				writeSignalNonBlock(s.eventDelete)
 			case event.Op&fsnotify.Create != 0:
 				writeSignalNonBlock(s.eventWrite)
+				if s.ReOpen {
+					// created at the path, or moved onto it over the followed file (atomic replace:
+					// there is no Remove event then): have the reader compare what it has open with the path
+					writeSignalNonBlock(s.eventDelete)
+				}
 			}
 		}
 	}()
